@@ -171,6 +171,11 @@ def story_xml(sid, variant=0, body=(('p', 'plain'),), timing='dur', rich=False,
     """A <story> element with id, slug, timing metadata and body."""
     owner = ref_name(sid)
     parts = [id_tag('storyID', sid)]
+    if timing == 'nopayload':
+        # a metadata block without any mosPayload: "absent optional data"
+        rest = ('<storySlug/>' if slug == 'blank' else f'<storySlug>{escape(owner)} slug v{variant}</storySlug>' if slug else '')
+        return (f'<{tag}>' + parts[0] + rest + '<mosExternalMetadata><mosSchema>schema.without.payload</mosSchema></mosExternalMetadata>'
+                + body_xml(body, owner, rich=rich) + f'</{tag}>')
     if slug == 'blank':
         parts.append('<storySlug/>')
     elif slug:
